@@ -97,6 +97,48 @@ let sexp_of_instr (pos : z) (i : xinstr) : Sexp.t =
   | XIOrJump t -> L [p; A "ORJUMP"; A (string_of_z t)]
   | XIJumpFalsy t -> L [p; A "JUMPFALSY"; A (string_of_z t)]
   | XIJump t -> L [p; A "JUMP"; A (string_of_z t)]
+  | XISetLocal k -> L [p; A "SETLOCAL"; A (string_of_int (int_of_nat k))]
+  | XIDefineLocal k -> L [p; A "DEFINELOCAL"; A (string_of_int (int_of_nat k))]
+  | XIPop -> L [p; A "POP"]
+  | XIReturn -> L [p; A "RETURN"; A "1"]
+
+(* ---- statement compiler (StmtComp) ---- *)
+let rec cstmt_of (s : Sexp.t) : cstmt =
+  let nat a = C03.nat_of_int (int_of_string a) in
+  match s with
+  | L [A "skip"] -> TSkip
+  | L (A "seq" :: l) -> List.fold_right (fun a b -> TSeq (cstmt_of a, b)) l TSkip
+  | L [A "set"; A i; e] -> TSet (nat i, cexpr_of e)
+  | L [A "def"; A i; e] -> TDef (nat i, cexpr_of e)
+  | L [A "exp"; e] -> TExp (cexpr_of e)
+  | L [A "if"; c; a] -> TIf (cexpr_of c, cstmt_of a)
+  | L [A "ifelse"; c; a; b] -> TIfElse (cexpr_of c, cstmt_of a, cstmt_of b)
+  | L [A "for"; c; body; post] -> TFor (cexpr_of c, cstmt_of body, cstmt_of post)
+  | L [A "break"] -> TBreak
+  | L [A "continue"] -> TContinue
+  | L [A "ret"; e] -> TRet (cexpr_of e)
+  | _ -> failwith ("c02: cstmt " ^ Sexp.to_string s)
+
+let run_stmt (args : Sexp.t list) : Sexp.t =
+  match args with
+  | [s; L consts; L locals] ->
+    let s = cstmt_of s in
+    let consts = List.map value_of_sexp consts and locals = List.map value_of_sexp locals in
+    let code = scompile Z0 Z0 Z0 s in
+    let rec listing pos = function [] -> [] | i :: r -> sexp_of_instr pos i :: listing (Z.add pos (xisize i)) r in
+    let spec = (match sexec (C03.nat_of_int 50000) consts locals s with
+        | Ok (QReturn v, _) -> L [A "ok"; sexp_of_value v]
+        | Ok (_, _) -> L [A "fell-through"]
+        | Err _ -> L [A "err"]
+        | OutOfFuel -> L [A "inconclusive"]
+        | _ -> L [A "undefined-behaviour"]) in
+    let mach = (match xmrun (C03.nat_of_int 300000) consts code (xcsize code) (XRunning (Z0, locals, [])) with
+        | XReturned v -> L [A "ok"; sexp_of_value v]
+        | XThrown _ -> L [A "err"]
+        | XRunning (_, _, _) -> L [A "fell-through"]
+        | _ -> L [A "stuck"]) in
+    L [A "stmtcomp"; L (A "code" :: listing Z0 code); spec; mach; A (if wf s then "wf" else "not-wf")]
+  | _ -> failwith "c02: stmtcomp"
 
 let run_expr (args : Sexp.t list) : Sexp.t =
   match args with
@@ -121,5 +163,6 @@ let run (kind : string) (args : Sexp.t list) : Sexp.t =
      | PError n -> L [A "err"; A (C13.ocaml_string_of n)]
      | PFuel -> L [A "fuel"])
   | "exprcomp", _ -> run_expr args
+  | "stmtcomp", _ -> run_stmt args
   | _ -> failwith "c02: bad case"
 
